@@ -796,3 +796,197 @@ func seedQueries(s QSchema) string {
 	}
 	return b.String()
 }
+
+// genExtraStmt: shapes along the properties' quantifier text that the base generator lacks — the same table
+// name in two schemas, an alias that shadows another relation's real name, self joins, a CTE referenced
+// twice, many placeholders with reuse, reserved-word aliases over shared columns, UPDATE … FROM,
+// INSERT … SELECT, CASE … ELSE cast AS alias. Returns the statement and DDL to append to the schema.
+func genExtraStmt(r *Rng, s QSchema, idx int) (QStmt, string) {
+	q := QStmt{Name: fmt.Sprintf("Q%d", idx), Cmd: ":many"}
+	pg := s.Engine != "mysql"
+	t := &s.Tables[r.Intn(3)]
+	u := &s.Tables[(r.Intn(2)+1+indexOfQ(s, t.Name))%3]
+	c1 := t.Cols[1+r.Intn(len(t.Cols)-1)]
+	d1 := u.Cols[1+r.Intn(len(u.Cols)-1)]
+	n := 0
+	ph := func() string {
+		n++
+		if pg {
+			return fmt.Sprintf("$%d", n)
+		}
+		return "?"
+	}
+	extra := ""
+	tag := ""
+	twin := func() string {
+		// archive.<t>: same name, other schema, different column list and types
+		if !pg {
+			return ""
+		}
+		if len(s.Tables) > 3 && t.Name == "books" {
+			return "archive.books"
+		}
+		ddl := ""
+		if len(s.Tables) <= 3 {
+			ddl = "CREATE SCHEMA archive;\n"
+		}
+		nn := "NOT NULL"
+		if c1.NotNull {
+			nn = ""
+		}
+		ty := "bigint"
+		if strings.HasPrefix(c1.Type, "bigint") || strings.HasPrefix(c1.Type, "int") {
+			ty = "text"
+		}
+		ddl += fmt.Sprintf("CREATE TABLE archive.%s (id bigint NOT NULL, %s %s %s, archived_at timestamptz);\n", t.Name, c1.Name, ty, nn)
+		extra += ddl
+		return "archive." + t.Name
+	}
+	switch k := r.Intn(16); k {
+	case 0, 1:
+		if tw := twin(); tw != "" {
+			tag = "same-name-two-schemas"
+			switch r.Intn(4) {
+			case 0:
+				q.SQL = fmt.Sprintf("SELECT a.%s, b.%s FROM %s a JOIN %s b ON b.id = a.id", c1.Name, c1.Name, t.Name, tw)
+			case 1:
+				q.SQL = fmt.Sprintf("SELECT b.%s, a.id FROM %s a JOIN %s b ON b.id = a.id WHERE b.%s = %s", c1.Name, tw, t.Name, c1.Name, ph())
+			case 2:
+				q.SQL = fmt.Sprintf("SELECT b.* FROM %s a JOIN %s b ON b.id = a.id", t.Name, tw)
+			default:
+				q.SQL = fmt.Sprintf("SELECT b.*, a.id AS aid FROM %s a JOIN %s b ON b.id = a.id WHERE a.%s = %s", tw, t.Name, c1.Name, ph())
+			}
+		} else {
+			tag = "mysql-two-tables"
+			q.SQL = fmt.Sprintf("SELECT a.%s, b.%s FROM %s a JOIN %s b ON b.id = a.id WHERE b.%s = ?", c1.Name, d1.Name, t.Name, u.Name, d1.Name)
+			n = 1
+		}
+	case 2:
+		tag = "alias-shadows-table"
+		// the alias of one relation is the real name of another relation that comes later
+		q.SQL = fmt.Sprintf("SELECT cur.id FROM %s AS %s JOIN %s AS cur ON cur.id = %s.id WHERE %s.%s = %s", t.Name, u.Name, u.Name, u.Name, u.Name, c1.Name, ph())
+	case 3:
+		tag = "self-join-unqualified-param"
+		q.SQL = fmt.Sprintf("SELECT a.id FROM %s a JOIN %s b ON b.id = a.id WHERE %s = %s", t.Name, t.Name, c1.Name, ph())
+	case 4:
+		tag = "self-join-qualified-param"
+		q.SQL = fmt.Sprintf("SELECT a.id, b.%s FROM %s a JOIN %s b ON b.id = a.id WHERE b.%s = %s", c1.Name, t.Name, t.Name, c1.Name, ph())
+	case 5:
+		if pg {
+			tag = "cte-twice"
+			q.SQL = fmt.Sprintf("WITH c AS (SELECT id, %s FROM %s) SELECT c.*, (SELECT count(*) FROM c y WHERE y.id < c.id) AS rnk FROM c", c1.Name, t.Name)
+		} else {
+			tag = "three-way-join"
+			q.SQL = fmt.Sprintf("SELECT a.id, b.id, c.%s FROM %s a JOIN %s b ON b.id = a.id JOIN %s c ON c.id = b.id WHERE c.%s = ?", c1.Name, t.Name, u.Name, t.Name, c1.Name)
+			n = 1
+		}
+	case 6:
+		tag = "many-placeholders-reuse"
+		// more than 12 occurrences, the first number reused late in another context
+		var conds []string
+		first := ph()
+		conds = append(conds, fmt.Sprintf("a.%s = %s", c1.Name, first))
+		for i := 0; i < 12; i++ {
+			cc := t.Cols[i%len(t.Cols)]
+			conds = append(conds, fmt.Sprintf("a.%s <> %s", cc.Name, ph()))
+		}
+		if pg {
+			conds = append(conds, fmt.Sprintf("EXISTS (SELECT 1 FROM %s b WHERE b.%s = %s)", u.Name, d1.Name, first))
+		}
+		q.SQL = fmt.Sprintf("SELECT a.id FROM %s a WHERE %s", t.Name, strings.Join(conds, " AND "))
+	case 7:
+		tag = "reserved-alias-shared-columns"
+		al := `"order"`
+		if !pg {
+			al = "`rank`"
+		}
+		q.SQL = fmt.Sprintf("SELECT * FROM %s %s JOIN %s b ON b.id = %s.id", t.Name, al, u.Name, al)
+	case 8:
+		if pg {
+			tag = "update-from"
+			q.Cmd = ":exec"
+			q.SQL = fmt.Sprintf("UPDATE %s SET %s = %s FROM %s b WHERE b.id = %s.id AND b.%s = %s", t.Name, c1.Name, ph(), u.Name, t.Name, d1.Name, ph())
+		} else {
+			tag = "update-plain"
+			q.Cmd = ":exec"
+			q.SQL = fmt.Sprintf("UPDATE %s SET %s = ? WHERE id = ?", t.Name, c1.Name)
+			n = 2
+		}
+	case 9:
+		tag = "insert-select"
+		q.Cmd = ":exec"
+		q.SQL = fmt.Sprintf("INSERT INTO %s (id, %s) SELECT id, %s FROM %s WHERE id = %s", t.Name, c1.Name, c1.Name, t.Name, ph())
+	case 10:
+		if pg {
+			tag = "case-else-cast-alias"
+			q.SQL = fmt.Sprintf("SELECT id, CASE WHEN id > 0 THEN 'p' ELSE %s::text END AS label FROM %s", c1.Name, t.Name)
+		} else {
+			tag = "case-alias"
+			q.SQL = fmt.Sprintf("SELECT id, CASE WHEN id > 0 THEN 'p' ELSE 'n' END AS label FROM %s", t.Name)
+		}
+	case 11:
+		tag = "schema-qualified-column"
+		if pg {
+			q.SQL = fmt.Sprintf("SELECT public.%s.id, %s.%s FROM public.%s WHERE public.%s.%s = %s", t.Name, t.Name, c1.Name, t.Name, t.Name, c1.Name, ph())
+		} else {
+			q.SQL = fmt.Sprintf("SELECT %s.id, %s.%s FROM %s WHERE %s.%s = ?", t.Name, t.Name, c1.Name, t.Name, t.Name, c1.Name)
+			n = 1
+		}
+	case 12:
+		tag = "left-join-param-both"
+		q.SQL = fmt.Sprintf("SELECT a.id, b.%s FROM %s a LEFT JOIN %s b ON b.id = a.id AND b.%s = %s WHERE a.%s = %s", d1.Name, t.Name, u.Name, d1.Name, ph(), c1.Name, ph())
+	case 13:
+		if pg {
+			tag = "self-update-from"
+			q.Cmd = ":exec"
+			q.SQL = fmt.Sprintf("UPDATE %s AS a SET %s = b.%s FROM %s AS b WHERE b.id = a.id AND id = %s", t.Name, c1.Name, c1.Name, t.Name, ph())
+		} else {
+			tag = "delete-param"
+			q.Cmd = ":exec"
+			q.SQL = fmt.Sprintf("DELETE FROM %s WHERE %s = ?", t.Name, c1.Name)
+			n = 1
+		}
+	case 14:
+		tag = "in-subselect-param"
+		q.SQL = fmt.Sprintf("SELECT id FROM %s WHERE id IN (SELECT id FROM %s WHERE %s = %s) AND %s = %s", t.Name, u.Name, d1.Name, ph(), c1.Name, ph())
+	default:
+		tag = "star-and-explicit-agree"
+		q.SQL = fmt.Sprintf("SELECT a.*, b.id AS bid FROM %s a JOIN %s b ON b.id = a.id WHERE a.id = %s", t.Name, u.Name, ph())
+	}
+	q.NParams = n
+	q.Tags = []string{"extra:" + tag}
+	return q, extra
+}
+
+// multiActionAlter: ONE ALTER TABLE with several column actions (a drop first) on a table the statement
+// uses, preferring a second action that drops a column the statement mentions. Returns the DDL and the
+// (table, column) pairs that no longer exist afterwards.
+func multiActionAlter(r *Rng, s QSchema, sql string) (string, [][2]string) {
+	var cands []PTable
+	for _, t := range s.Tables[:3] {
+		if strings.Contains(sql, t.Name) && len(t.Cols) >= 4 {
+			cands = append(cands, t)
+		}
+	}
+	if len(cands) == 0 {
+		return "", nil
+	}
+	t := cands[r.Intn(len(cands))]
+	j := -1
+	for k := len(t.Cols) - 1; k >= 2; k-- {
+		if strings.Contains(sql, strings.Trim(t.Cols[k].Name, "\"`")) && r.Chance(70) {
+			j = k
+			break
+		}
+	}
+	if j < 0 {
+		j = 2 + r.Intn(len(t.Cols)-2)
+	}
+	i := 1 + r.Intn(j-1)
+	gone := [][2]string{{t.Name, strings.Trim(t.Cols[i].Name, "\"`")}}
+	second := r.Pick([]string{"DROP COLUMN %s", "DROP COLUMN %s", "ALTER COLUMN %s SET NOT NULL", "ALTER COLUMN %s DROP NOT NULL"})
+	if strings.HasPrefix(second, "DROP") {
+		gone = append(gone, [2]string{t.Name, strings.Trim(t.Cols[j].Name, "\"`")})
+	}
+	return fmt.Sprintf("ALTER TABLE %s DROP COLUMN %s, %s;\n", t.Name, t.Cols[i].Name, fmt.Sprintf(second, t.Cols[j].Name)), gone
+}
